@@ -98,36 +98,8 @@ pub fn cases(tier: Tier) -> CaseSet {
     for c in crate::c06::families(Tier::Quick).into_iter().step_by(tier.pick(9, 3)) {
         models.push((c.desc, c.spec));
     }
-    // edge shapes of well-formed models that the pattern-pool families do not produce: a window of
-    // 0 (what training with --charw 0 / --typew 0 yields: dictionary words do not depend on the
-    // window), a single kind of pattern only, no pattern at all
-    {
-        use crate::models::Entry;
-        let d = |s: &str| Entry::Dict(s.to_string());
-        let c = |s: &str| Entry::Char(s.to_string());
-        let t = |v: &[u8]| Entry::Type(v.to_vec());
-        let edge: Vec<(u8, u8, Vec<Entry>)> = vec![
-            (0, 0, vec![d("a"), d("ab")]),
-            (0, 2, vec![d("あa"), t(&[2, 3])]),
-            (0, 3, vec![d("b"), t(&[2]), t(&[3, 2, 2])]),
-            (2, 0, vec![c("a"), c("ab"), d("ba")]),
-            (1, 0, vec![c("あ")]),
-            (0, 0, vec![]),
-            (2, 2, vec![d("abab"), d("bab"), d("ab"), d("b")]),
-            (3, 3, vec![t(&[2, 2, 3]), t(&[2, 3]), t(&[3])]),
-            (4, 4, vec![t(&[2, 2, 3]), t(&[2, 3]), c("ab")]),
-        ];
-        for (wc, wt, entries) in edge {
-            for (bias, scheme) in [(0, 0u8), (1, 2), (-3, 1)] {
-                for tags in [false, true] {
-                    if tags && (wc == 0 || wt == 0) {
-                        continue; // attach_tags uses relative positions up to 1: keep them inside the window
-                    }
-                    let b = crate::c01::mk(&entries, wc, wt, bias, scheme, tags);
-                    models.push((format!("edge {}", b.desc), b.spec));
-                }
-            }
-        }
+    for (d, spec) in crate::c01::edge_family() {
+        models.push((d, spec));
     }
     let texts = gen::strings(&['a', 'b', 'あ', '𠀋'], 1, 4);
     CaseSet { models, texts }
